@@ -14,6 +14,7 @@ import os
 import re
 import subprocess
 
+from vlib import exitkill
 from vlib.common import HARNESS, LEAN_DIR, REPO, VERIF, hexs
 from vlib.seqrun import run_batch
 
@@ -739,6 +740,11 @@ def run(ctx):
             dist["dsh_canceled"] = dist.get("dsh_canceled", 0) + 1
             distinct.add(("dsh", l))
             judge_canceled(ctx, l, ans, crash, m)
+        # ---- (k) -k: which statement ends the run, with which status, and what has become of the siblings: the real dsh()
+        # on the scripted transport with its event log vs the transition system Dsh/ExitKill.lean (vlib/exitkill.py)
+        kscn = exitkill.systematic(magic, real_xd) + \
+            [exitkill.random_scenario(rng, magic, real_xd) for _ in range(6 if ctx.quick() else 150)]
+        exitkill.run_scripted(ctx, exe, env, kscn, bits, dist, cov, distinct)
         # ---- (d) the real binary ----------------------------------------------------------------
         helper = os.path.join(ctx.scratch, "exit_helper")
         hb = subprocess.run(["gcc", "-O1", "-w", os.path.join(HARNESS, "exit_helper.c"), "-o", helper])
@@ -781,6 +787,8 @@ def run(ctx):
                 if sp != "ok":
                     bad.append((s, " ".join(av), ml_, "exit %d" % rc, spl, exit_of(m) == rc))
             report_bad(ctx, bad, bits, "pdsh")
+            # -k through the real binary: the siblings leave start / term traces
+            exitkill.run_cli(ctx, pdsh, helper, bits, magic, dist, cov, distinct)
             # F08-CANCELED on the real binary: fanout 1, first target sleeps, ^C then ^Z within a second cancels the
             # pending targets; their command never runs, yet -S exits 0
             for trial in range(1 if ctx.quick() else 3):
@@ -869,7 +877,15 @@ def replay(ctx, cov, exe, repo, magic, bits, env):
         ctx.log("replay file names no input (theorem/correspondence only): running the whole check instead")
         ctx.replay = None
         return run(ctx)
-    if "line_hex" in case:
+    if "k_scn" in case:
+        exitkill.run_scripted(ctx, exe, env, [exitkill.scn_from_json(case["k_scn"])], bits, {}, cov, set())
+    elif "k_case" in case:
+        c = exitkill.scn_from_json(case["k_case"])
+        for attempt in (0, 1):
+            argv, obs = exitkill.run_cli_case(pdsh, helper, ctx.scratch, attempt, c)
+            if exitkill.judge_cli(ctx, c, argv, obs, bits, report=(attempt == 1)) != "retry":
+                break
+    elif "line_hex" in case:
         l = bytes.fromhex(case["line_hex"]) if case["line_hex"] != "-" else b""
         (ans, crash), = run_batch([exe], [["xrc " + hexs(l)]], env=env)
         m = ctx.model("exit", "xrc %s\n" % hexs(l), args=["model", bits])[0]
